@@ -14,6 +14,8 @@ Fixpoint bs (s : string) : bytes :=
   | String c r => N_of_ascii c :: bs r
   end.
 
+Arguments bs s%string.
+
 Fixpoint bytes_eqb (a b : bytes) : bool :=
   match a, b with
   | [], [] => true
@@ -135,3 +137,6 @@ Fixpoint uptoN {A} (l : list A) (k : N) : list A * list A :=
        | [] => ([], [])
        | x :: r => let '(t, rest) := uptoN r (k - 1)%N in (x :: t, rest)
        end.
+
+Definition is_lit (w : bytes) (s : string) : bool := bytes_eqb w (bs s).
+Arguments is_lit w s%string.
